@@ -746,8 +746,10 @@ def finish(ctx, pid, tier, seed, t0, spec, au, cov, violations, known_hits):
         'violations': len(violations),
         'known_findings_reproduced': known_hits,
     }
-    os.makedirs(os.path.join(ctx.root, 'evidence'), exist_ok=True)
-    with open(os.path.join(ctx.root, 'evidence', pid + '.json'), 'w') as f:
+    # development runs without the Coq audit never overwrite the evidence of record
+    evdir = os.path.join(ctx.build, 'evidence-dev') if os.environ.get('VERIF_SKIP_AUDIT') == '1' else os.path.join(ctx.root, 'evidence')
+    os.makedirs(evdir, exist_ok=True)
+    with open(os.path.join(evdir, pid + '.json'), 'w') as f:
         json.dump(ev, f, indent=1)
     for kid, desc in sorted(known_hits.items()):
         ctx.say('KNOWN-FINDING: property=%s %s %s' % (pid, kid, desc))
